@@ -409,13 +409,13 @@ def tag_text(c):
     return c["text"] if c["kind"] == "lit" else ""
 
 
-def coq_case(c, o):
+def coq_case(c, o, fix):
     """raises Odd when Configure.Get returned something the model's value type cannot carry"""
     kind = 0 if c["kind"] == "key" else 1
     v = cval_coq(o["get"]) if c["kind"] == "key" else "VNull"
-    return "mkCase %d %d %s %s %s %s %s %s %s %s" % (
+    return "mkCase %d %d %s %s %s %s %s %s %s %s %s" % (
         c["id"], kind, vlib.coq_bool(c["req"]), vlib.coq_bytes(c["key"]), v, vlib.coq_bytes(tag_text(c)),
-        type_coq(c["type"]), obs_coq(o.get("prefix")), obs_coq(o.get("value")), obs_coq(o.get("prop")))
+        type_coq(c["type"]), vlib.coq_bool(fix), obs_coq(o.get("prefix")), obs_coq(o.get("value")), obs_coq(o.get("prop")))
 
 
 # ------------------------------------------------------------------------------------------------
@@ -478,7 +478,8 @@ def go_case(c):
     return g
 
 
-DEFS = {"M": "mismatches", "V": "violations", "K": "known", "U": "unmodelled", "NT": "count_nontrivial"}
+DEFS = {"M": "mismatches", "V": "violations", "K": "known", "U": "unmodelled", "NT": "count_nontrivial",
+        "DC": "domain_counts"}
 
 
 def evaluate(ctx, binp, cases, tag):
@@ -487,13 +488,19 @@ def evaluate(ctx, binp, cases, tag):
     rc, res, raw = vlib.run_json(binp, gin, timeout=3000)
     if res is None or len(res.get("outs", [])) != len(cases):
         raise vlib.GoBuildError("./cmd/c17 (run)", raw[-3000:])
+    splice = (res.get("facts") or {}).get("float_splice")
+    if splice not in ("1e+06", "1000000"):
+        raise vlib.GoBuildError("./cmd/c17 (facts)", "value:\"${k}\" with k: 1000000.0 bound %r into a string field; the model knows "
+                                "\"1e+06\" (unchanged tree) and \"1000000\" (repair D-C17g)" % splice)
+    fix = splice == "1000000"
+    ctx.float_fix = fix
     by_id = {}
     terms = []
     odd = []
     for c, o in zip(cases, res["outs"]):
         by_id[c["id"]] = {"case": c, "observed": o, "yaml": go_case(c)["yaml"]}
         try:
-            terms.append(coq_case(c, o))
+            terms.append(coq_case(c, o, fix))
         except Odd as ex:
             odd.append((c["id"], str(ex)))
     out = vlib.coq_eval_sharded(ctx, "cases_c17_" + tag, HEADER, terms, DEFS, shard=250)
@@ -501,6 +508,8 @@ def evaluate(ctx, binp, cases, tag):
     out["K"] = {k[i]: k[i + 1] for i in range(0, len(k), 2)}
     out["U"] = sum(out["U"])
     out["NT"] = sum(out["NT"])
+    dc = out["DC"]
+    out["DC"] = [sum(dc[i::4]) for i in range(4)]
     out["odd"] = odd
     return by_id, out
 
@@ -651,9 +660,15 @@ def run(ctx):
     M, V, K = res["M"], res["V"], res["K"]
     ctx.log("cases=%d (x3 routes for key cases) nontrivial=%d unmodelled=%d odd=%d mismatches=%d violations=%d known-class=%d" % (
         len(cases), res["NT"], res["U"], len(res["odd"]), len(M), len(V), len(K)))
+    ctx.oblige("facts: the tree's value path is one of the two modelled variants (float64 spliced as %v text = unchanged, "
+               "or in plain digits = repair D-C17g)", True, "D-C17g applied: %s" % ctx.float_fix)
     if res["odd"]:
         ctx.notes.append("cases left out of the Coq evaluation (Configure.Get returned inf/nan or an unexpected dynamic type): %s"
                          % res["odd"][:5])
+
+    ctx.oblige("inside safe the implementation's three routes bind the same field (prediction of c17_paths_agree_key)",
+               res["DC"][3] == 0, "%d safe cases, %d disagree" % (res["DC"][0], res["DC"][3]))
+    static_ok = static_ok and res["DC"][3] == 0
 
     def classify(entry, K=K):
         return KF_IDS.get(K.get(entry["case"]["id"]))
@@ -730,6 +745,10 @@ def run(ctx):
         "nontrivial_cases_coq": res["NT"],
         "outside_modelled_fragment(some route compared by the oracle only)": res["U"],
         "known_finding_class_sizes": kfc,
+        "theorem_domains_exercised": {"key cases inside safe with inert text (c17_paths_agree_key applies)": res["DC"][0],
+                                      "... of which bound a value (not a common conversion error)": res["DC"][2],
+                                      "... on which the implementation's three routes differ (must be 0)": res["DC"][3],
+                                      "key cases whose value already has the field's type (embed, c17_prefix_exact)": res["DC"][1]},
     }
     return vlib.decide(ctx, static_ok, by_id, M, V, cov, classify_known=classify, widen=widen, shrink=shrink,
                        assumptions=["the model starts from what Configure.Get(key) returned (viper + yaml.v3 are not modelled)",
